@@ -188,7 +188,33 @@ def glue(ctx, L):
     ctx.count(len(reqs), 'glue_lines')
     return bad
 
-def pinned_tables(ctx, L):
+def method_entry(ctx, L):
+    """the calculator object behind tyrving_score, called directly: `TyrvingCalculator(...).points(age, mark, timing_kind)`
+    must give what the function gives (automatic) and the hand-timing allowance when told 'manual'"""
+    TS = L['tyrving_score']; n = 0; bad = 0
+    for u in JC.units_tyrving(L):
+        g, ev, age = u.key
+        kind, args = TS._tyrvingTables[g][ev]
+        ks = sorted(set(k for m in u.marks for k in (m, m + 1) if u.lo <= k <= u.hi))[:10]
+        for k in ks:
+            for tk, hand, how in ((None, False, 'default'), ('automatic', False, 'keyword'), ('manual', True, 'keyword'), ('manual', True, 'positional')):
+                if hand and not (u.timed and L['codes'].PAT_RUN.match(ev)): continue
+                want = JC.oracle(L, 'ty', u.key, k, hand)
+                if want is None: continue
+                calc = TS.TyrvingCalculator(g, ev, kind, args)
+                arg = JC.s2(k)
+                call = (lambda: calc.points(age, arg)) if tk is None else (lambda: calc.points(age, arg, tk)) if how == 'positional' else (lambda: calc.points(age, arg, timing_kind=tk))
+                im = JC.canon(call); n += 1
+                if im != want:
+                    bad += 1
+                    if bad <= 10:
+                        ctx.fail('athlib.tyrving_score.TyrvingCalculator.points', [g, ev, age, arg, tk, how], want, im, note='calculator method called directly (%s timing, %s argument)' % (tk or 'default', how),
+                                 replay_py='import athlib.tyrving_score as T\nk, a = T._tyrvingTables[%r][%r]\nc = T.TyrvingCalculator(%r, %r, k, a)\nresult = %s' % (
+                                     g, ev, g, ev, 'c.points(%r, %r)' % (age, arg) if tk is None else 'c.points(%r, %r, %r)' % (age, arg, tk) if how == 'positional' else 'c.points(%r, %r, timing_kind=%r)' % (age, arg, tk)))
+    ctx.count(n, 'method_entry_calls')
+
+
+def pinned_tables(ctx, L, everything=False):
     """the live tables against the pinned copy of the published tables (spec/junior_tables_pinned.txt.gz): where an
     entry differs, the real function is compared with the exact evaluation of the PINNED entry on its whole grid"""
     import pin_junior as PJ
@@ -206,11 +232,14 @@ def pinned_tables(ctx, L):
     units = JC.units_tyrving(PL) + JC.units_qkids(PL) + JC.units_sportshall(PL) + JC.units_bulgarian(PL)
     ndiff = 0; nbad = 0; ncalls = 0
     for u in units:
-        if entry(live, u) == entry(P, u): continue
-        ndiff += 1
-        if ndiff > 200: continue
+        same = entry(live, u) == entry(P, u)
+        if same and not everything: continue
+        if not same:
+            ndiff += 1
+            if ndiff > 200: continue
         hands = u.sys == 'ty' and u.timed
-        for k in range(u.lo, u.hi + 1):
+        # entries that differ from the pinned copy: the whole grid; (everything=True) the others: the thresholds +-1
+        for k in (range(u.lo, u.hi + 1) if not same else sorted(set(x for m in u.marks for x in (m - 1, m, m + 1) if u.lo <= x <= u.hi))):
             for name, arg, hand in JC.unit_forms(u, k):
                 if name not in ('str2', 'float') and k % 7: continue
                 want = JC.oracle(PL, u.sys, u.key, k, hand and hands)
@@ -255,7 +284,15 @@ def run(ctx):
                         'Sportshall high/low direction is read from the table (thresholds grow with the points); the list in sportshall_score() is checked against it by the correspondence',
                         'marks are written to 0.01 (the property); Tyrving text with fewer than two decimals on a timed event is hand-timed by convention']
     side = gen_step(ctx)
-    if side is None: return
+    if side is None:
+        # the tables no longer translate: search the implementation without the model (pinned published tables, entry points)
+        try:
+            L = JC.live()
+            pinned_tables(ctx, L, everything=True)
+            method_entry(ctx, L)
+        except Exception as e:
+            ctx.notes.append('implementation-only search failed: %r' % (e,))
+        return
     import gen
     gen.regex(ctx, ['PAT_EVENT_CODE', 'PAT_RUN'])
     ok, log, failed = ctx.build(OBLIG + ['AthlibVerif.Props.C11'])
@@ -272,6 +309,7 @@ def run(ctx):
     key_checks(ctx, L)
     table_order(ctx, L)
     row_reachability(ctx, L)
+    method_entry(ctx, L)
     pinned_tables(ctx, L)
     nd = glue(ctx, L)
     units = JC.units_tyrving(L) + JC.units_qkids(L) + JC.units_sportshall(L) + JC.units_bulgarian(L)
